@@ -26,9 +26,10 @@ five fields a PUBLISH delivered TO the client may change (`inflight`, `sendQuota
 topic index entries of the other client (M2's trie) — only the object's own `subs` list and its
 Clients-map entry are shown unchanged — and everything that is not sequential (M4).
 
-Finding F28 (`C28_size_before_body_counterexample`): the size test of `ReadFixedHeader` is
-`Remaining + 1 > MaximumPacketSize`; it counts one byte for the fixed header where the packet has
-`1 + (1…4)` — packets of up to `MaximumPacketSize + 4` bytes are accepted and their bodies read.
+The size clause is proved at full strength (`C28_size_before_body`): the size test of `ReadFixedHeader`
+is `Remaining + bu + 1 > MaximumPacketSize`, the packet's total encoded size (`bu` = the 1…4 length
+bytes).  (Former finding F28, repaired in the code: the test was `Remaining + 1 > MaximumPacketSize`
+and packets of up to `MaximumPacketSize + 4` bytes were accepted and their bodies read.)
 -/
 namespace Mochi.Reader
 open Mochi.Codec Mochi.Varint
@@ -221,53 +222,58 @@ def SizeBeforeBody (max hb : Nat) (lenBytes rest : List Nat) : Prop :=
     max > 0 → 1 + lenBytes.length + n > max →
     readFixedHeader max (hb :: (lenBytes ++ rest)) = .error .tooLarge
 
-/-- **F28**: with `MaximumPacketSize = 4` the five-byte PUBLISH `30 03 00 01 61` is accepted (the test
-    compares `Remaining + 1 = 4` with the limit and ignores the length byte) -/
-theorem C28_size_before_body_counterexample : ¬ SizeBeforeBody 4 0x30 [3] [0, 1, 0x61] := by
-  intro h
-  have := h { type := 3 } 3 rfl rfl (by decide) (by decide)
-  exact absurd this (by decide)
-
-/-- and the accepted packet is read and handed to the handler -/
-example : (readStream { maxPacketSize := 4 } 4 [0x30, 3, 0, 1, 0x61]).1.map ReadEvent.isFinal = [false, true] := by
-  decide
-
-/-- what the code guarantees (1): a packet whose remaining length alone reaches the limit
-    (`remaining + 1 > max`) is refused by `ReadFixedHeader`, whatever follows the fixed header — the
-    body bytes are not looked at, they need not even have arrived. -/
-theorem C28_size_before_body_partial (max hb : Nat) (lenBytes rest : List Nat) (fh : FixedHeader) (n : Nat)
-    (hfh : fixedHeaderDecode hb = .ok fh) (hlen : decodeLength lenBytes = .ok (n, lenBytes.length))
-    (hmax : max > 0) (hbig : n + 1 > max) :
-    readFixedHeader max (hb :: (lenBytes ++ rest)) = .error .tooLarge := by
+/-- **C28 (size), at full strength**: a packet whose TOTAL encoded size — header byte, length bytes and
+    `remaining` — exceeds the configured maximum is refused by `ReadFixedHeader` with
+    `ErrPacketTooLarge`, whatever follows the fixed header: the body bytes are not looked at, they need
+    not even have arrived.  (`uint32(Remaining+bu+1)` cannot wrap: `Remaining ≤ 268435455`, `bu ≤ 4`.) -/
+theorem C28_size_before_body (max hb : Nat) (lenBytes rest : List Nat) : SizeBeforeBody max hb lenBytes rest := by
+  intro fh n hfh hlen hmax hbig
+  have hb4 := (decodeLength_bytes lenBytes n _ hlen).2.1
   simp only [readFixedHeader, hfh, decodeLength_append lenBytes rest _ hlen]
-  rw [toUint32_of_le n (decodeLength_le_max _ _ _ hlen)]
-  simp [hmax, hbig]
+  rw [toUint32_of_le n _ (decodeLength_le_max _ _ _ hlen) hb4]
+  have hbig' : n + lenBytes.length + 1 > max := by omega
+  simp [hmax, hbig']
 
 /-- … and the read loop then ends with that error as its only event: no packet is delivered -/
 theorem C28_size_refused_stream (cfg : Cfg) (ver hb : Nat) (lenBytes rest : List Nat) (fh : FixedHeader) (n : Nat)
     (hfh : fixedHeaderDecode hb = .ok fh) (hlen : decodeLength lenBytes = .ok (n, lenBytes.length))
-    (hmax : cfg.maxPacketSize > 0) (hbig : n + 1 > cfg.maxPacketSize) :
+    (hmax : cfg.maxPacketSize > 0) (hbig : 1 + lenBytes.length + n > cfg.maxPacketSize) :
     (readStream cfg ver (hb :: (lenBytes ++ rest))).1 = [.error .tooLarge] := by
-  rw [readStream_step, C28_size_before_body_partial _ hb lenBytes rest fh n hfh hlen hmax hbig]
+  rw [readStream_step, C28_size_before_body _ hb lenBytes rest fh n hfh hlen hmax hbig]
 
-/-- what the code guarantees (2), the exact bound: an accepted fixed header has
-    `remaining + 1 ≤ max`, so the whole packet (`used` header bytes + `remaining`) is at most
-    `max + 4` bytes — `max + 1` with a one-byte length, up to `max + 4` with a padded four-byte one. -/
+/-- the converse, the exact bound: an accepted fixed header announces a packet whose whole size
+    (`used` header bytes + `remaining`) is at most the configured maximum. -/
 theorem C28_size_accepted_bound (max : Nat) (bs : List Nat) (fh : FixedHeader) (used : Nat)
     (h : readFixedHeader max bs = .ok fh used) (hmax : max > 0) :
-    fh.remaining + 1 ≤ max ∧ used + fh.remaining ≤ max + 4 := by
+    used + fh.remaining ≤ max := by
   obtain ⟨b, rest, fh0, n, bu, rfl, _, hd, rfl, rfl, hsz⟩ := readFixedHeader_ok max bs fh used h
-  have := decodeLength_bytes rest n bu hd
   simp only []
-  constructor <;> omega
+  omega
 
-/-- the bound is attained: limit 4, remaining length 3 written in four bytes: 8 = 4 + 4 bytes accepted -/
-example : readFixedHeader 4 [0x30, 0x83, 0x80, 0x80, 0x00, 0, 1, 0x61] = .ok { type := 3, remaining := 3 } 5 := by
+/-- the former witness of F28: with `MaximumPacketSize = 4` the five-byte PUBLISH `30 03 00 01 61` (the old
+    test compared `Remaining + 1 = 4` with the limit) is now refused, as an instance of the theorem … -/
+example : readFixedHeader 4 (0x30 :: ([3] ++ [0, 1, 0x61])) = .error .tooLarge :=
+  C28_size_before_body 4 0x30 [3] [0, 1, 0x61] { type := 3 } 3 rfl rfl (by decide) (by decide)
+
+/-- … the read loop delivers nothing … -/
+example : (readStream { maxPacketSize := 4 } 4 [0x30, 3, 0, 1, 0x61]).1 = [.error .tooLarge] := by
   decide
 
-/-- non-vacuity of the partial theorem: limit 4, remaining length 4 is refused although no body byte follows -/
+/-- … and non-vacuity of the bound: a packet of EXACTLY the limit (the same five bytes, limit 5) is accepted,
+    read and handed to the handler -/
+example : readFixedHeader 5 [0x30, 3, 0, 1, 0x61] = .ok { type := 3, remaining := 3 } 2 ∧
+    (readStream { maxPacketSize := 5 } 4 [0x30, 3, 0, 1, 0x61]).1.map ReadEvent.isFinal = [false, true] := by
+  decide
+
+/-- padded length bytes count: remaining length 3 written in four bytes is an 8-byte packet — accepted with
+    limit 8, refused with limit 7 (the unrepaired test accepted it with limit 4) -/
+example : readFixedHeader 8 [0x30, 0x83, 0x80, 0x80, 0x00, 0, 1, 0x61] = .ok { type := 3, remaining := 3 } 5 ∧
+    readFixedHeader 7 [0x30, 0x83, 0x80, 0x80, 0x00, 0, 1, 0x61] = .error .tooLarge := by
+  decide
+
+/-- refused before the body: limit 4, remaining length 4 is refused although no body byte follows -/
 example : readFixedHeader 4 (0x30 :: ([4] ++ [])) = .error .tooLarge :=
-  C28_size_before_body_partial 4 0x30 [4] [] { type := 3 } 4 rfl rfl (by decide) (by decide)
+  C28_size_before_body 4 0x30 [4] [] { type := 3 } 4 rfl rfl (by decide) (by decide)
 
 /-- without a configured maximum nothing is refused for its size -/
 example : readFixedHeader 0 [0x30, 0xFF, 0xFF, 0xFF, 0x7F] = .ok { type := 3, remaining := 268435455 } 5 := by
